@@ -1,0 +1,15 @@
+//go:build verif
+
+package app
+
+// Contracts for the deductive checker in /verif (comment-only; compiled only with -tags verif).
+// C14, wiring: the staking and governance keepers are constructed over the haqq bank keeper (whose BurnCoins redirects slashed stake
+// and burned deposits to the community pool), not over the plain SDK bank keeper. NewHaqq is not executed symbolically (interior
+// pointers to mutable fields of the app struct, escaping closures): the clauses are decided over its SSA data flow.
+
+/*@
+func NewHaqq
+    structural
+    wired c14_staking_bank: x/staking/keeper.NewKeeper arg 3 from haqq/x/bank/keeper.NewBaseKeeper
+    wired c14_gov_bank: x/gov/keeper.NewKeeper arg 3 from haqq/x/bank/keeper.NewBaseKeeper
+@*/
